@@ -753,18 +753,6 @@ class Compiler:
                 state,
             )
 
-        # Apply session differences if any
-        if (
-            request.modaliases is not None
-            and state.current_tx().get_modaliases() != request.modaliases
-        ):
-            state.current_tx().update_modaliases(request.modaliases)
-        if (
-            (session_config := request.session_config) is not None
-            and state.current_tx().get_session_config() != session_config
-        ):
-            state.current_tx().update_session_config(session_config)
-
         if (
             expect_rollback and
             state.current_tx().id != txid and
@@ -775,6 +763,21 @@ class Compiler:
             return self._try_compile_rollback(request.source)[0], state
         else:
             state.sync_tx(txid)
+
+        # Apply session differences if any.  This must happen after
+        # sync_tx(): syncing to a savepoint replaces the current
+        # transaction state with the savepoint snapshot and would
+        # otherwise discard what the client has sent with this request.
+        if (
+            request.modaliases is not None
+            and state.current_tx().get_modaliases() != request.modaliases
+        ):
+            state.current_tx().update_modaliases(request.modaliases)
+        if (
+            (session_config := request.session_config) is not None
+            and state.current_tx().get_session_config() != session_config
+        ):
+            state.current_tx().update_session_config(session_config)
 
         ctx = CompileContext(
             compiler_state=self.state,
